@@ -56,6 +56,7 @@ type Task struct {
 	InProc  bool
 	Audit   *Audit
 	Extras  []string
+	DirOut  map[string]bool
 }
 
 // Input is what the evaluator is given.
@@ -729,6 +730,15 @@ func evalProc(in *Input, r *Result, p *spec.Proc, files map[string][]byte,
 		if !hasCarrier {
 			t.TempDir = TempDirName(id)
 		}
+		dirOut := map[string]bool{}
+		for _, tk := range strings.Fields(cmd) {
+			if strings.HasPrefix(tk, "od=") {
+				if i := strings.Index(tk, ":"); i > 3 {
+					dirOut[tk[3:i]] = true
+				}
+			}
+		}
+		t.DirOut = dirOut
 		// skipped?
 		for _, op := range outPorts {
 			if streamOut[op] {
@@ -736,6 +746,11 @@ func evalProc(in *Input, r *Result, p *spec.Proc, files map[string][]byte,
 			}
 			if _, ok := in.Files[t.Outs[op]]; ok {
 				t.Skipped = true
+			}
+			for f := range in.Files {
+				if strings.HasPrefix(f, t.Outs[op]+"/") {
+					t.Skipped = true // the output is an existing directory
+				}
 			}
 		}
 		// audit
@@ -790,6 +805,9 @@ func evalProc(in *Input, r *Result, p *spec.Proc, files map[string][]byte,
 					np = strings.TrimSuffix(np, ".fifo")
 					b, ok := files[np]
 					if !ok {
+						b, ok = files[np+"/data"] // pre-existing directory output
+					}
+					if !ok {
 						okc = false
 						break
 					}
@@ -810,6 +828,7 @@ func evalProc(in *Input, r *Result, p *spec.Proc, files map[string][]byte,
 						t.Content[op] = data
 					}
 				}
+
 				if ex := opts["extra"]; ex != "" {
 					t.Extras = strings.Split(ex, ",")
 				}
@@ -829,7 +848,9 @@ func evalProc(in *Input, r *Result, p *spec.Proc, files map[string][]byte,
 			} else {
 				if c, ok := t.Content[op]; ok {
 					files[path] = c
-					if !streamOut[op] {
+					if dirOut[op] {
+						r.Files[path+"/data"] = c
+					} else if !streamOut[op] {
 						r.Files[path] = c
 					}
 				}
